@@ -289,6 +289,9 @@ func (pkg *pkg) Add(call *call) (string, error) {
 				return "", fmt.Errorf("Add Error: %s: argument %d of %s is of type %s, which has a type parameter: a function is generated for given types only", p.Name(), i, call.Name, arg)
 			}
 		}
+		if call.Expr.Ellipsis.IsValid() {
+			return "", fmt.Errorf("Add Error: %s: %s is called with ... after its last argument, but the functions that are generated are not variadic", p.Name(), call.Name)
+		}
 		if allUntypedNil(call.Args) {
 			return "", fmt.Errorf("Add Error: %s: %s is only given untyped nil, which does not say what type to generate for", p.Name(), call.Name)
 		}
